@@ -25,6 +25,9 @@ site: http://bugseng.com/products/ppl/ . */
 #define PPL_Determinate_inlines_hh 1
 
 #include "assertions.hh"
+#ifdef BUGSENG_PPL_VERIF
+#include "verif_hooks.hh"
+#endif
 
 namespace Parma_Polyhedra_Library {
 
@@ -146,6 +149,9 @@ Determinate<PSET>::m_swap(Determinate& y) {
 template <typename PSET>
 inline void
 Determinate<PSET>::mutate() {
+#ifdef BUGSENG_PPL_VERIF
+  PPL_VERIF_REACH(DETERMINATE_MUTATE);
+#endif
   if (prep->is_shared()) {
     Rep* const new_prep = new Rep(prep->pset);
     (void) prep->del_reference();
